@@ -8,6 +8,7 @@ Outcome alphabet (as in models/SolveT.tla) and its concretisation variants:
     moved  0: far (A = 10000 n + 1, B = -(10000 n + 1))   1: B += tol exactly (strict <, last variable only)
            2: A -= tol exactly (absolute value, first variable only)   3: only B far   4: A -= 1.0 only   5: B far via a rebinding list assignment
     nanw   0: A = 1/0 (np.float64, RuntimeWarning)   1: B = log(0)   2: A = 0/0
+           3: a guarded helper warns with UserWarning, then A = nan   4: ... with a DeprecationWarning subclass, then B = inf
     nans   0: B = nan   1: A = +inf   2: B = -inf      (stored silently)
     exc    0: raise Boom   1: Python 1.0/0.0 (ZeroDivisionError)
 
@@ -15,16 +16,22 @@ A finite outcome reached from a non-finite state *assigns* fresh finite values (
 leaves NaN). C is an endogenous variable that is NOT a check variable and jumps by 100 every pass; X is
 exogenous and never written.
 """
+import warnings
+
 import numpy as np
 
 import fsic
 
 TOL = 0.5
 
-VARIANTS = {'conv': 4, 'moved': 6, 'nanw': 3, 'nans': 3, 'exc': 2}
+VARIANTS = {'conv': 4, 'moved': 6, 'nanw': 5, 'nans': 3, 'exc': 2}
 
 
 class Boom(Exception):
+    pass
+
+
+class _HelperWarning(DeprecationWarning):
     pass
 
 
@@ -134,8 +141,15 @@ class ScriptedBase:
                 self._A[t] = np.float64(1.0) / np.float64(0.0)
             elif v == 1:
                 self._B[t] = np.log(np.float64(0.0))
-            else:
+            elif v == 2:
                 self._A[t] = np.float64(0.0) / np.float64(0.0)
+            elif v == 3:
+                # not every numerical problem is NumPy's: library code reports its own with other warning categories
+                warnings.warn('guarded helper: argument out of range', UserWarning)
+                self._A[t] = float('nan')
+            else:
+                warnings.warn('guarded helper: series is empty', _HelperWarning)
+                self._B[t] = float('inf')
         elif o == 'nans':
             if v == 0:
                 self._B[t] = float('nan')
